@@ -49,6 +49,7 @@ def scenarios(rep, tier, seed):
         scn = S.random_float_scenario(rng3, metric=met, n=rng3.randrange(3, 12), nq=3, dim=rng3.randrange(2, 6), sparse=True, mode="metric", classes=rng3.choice([2, 3]))
         scns.append(scn)
     scns += S.prefile_scenarios(random.Random(seed * 1000003 + 102), 90 if thorough else 24)
+    scns += S.bootstrap_scenarios(random.Random(seed * 1000003 + 103), 120 if thorough else 30)
     return scns
 
 
